@@ -50,7 +50,7 @@ LEVEL_NOTE = ("Crash = Python-level interruption (generator abandoned/closed, ex
 TECHNIQUE = "fault enumeration at every crash point + pull/call counters + audit log of file opens"
 
 SHAPES = ["seq", "source", "two", "acc", "split", "split2", "grow", "first", "last", "adjacent",
-          "bare", "splitbare", "tmpl"]
+          "bare", "splitbare", "tmpl", "filt"]
 LATERS = [["run", "run"], ["run", "recompute", "run"], ["drop", "run"], ["hoist", "run"],
           ["recompute", "hoist_recompute", "run"], ["drop2", "run"]]
 
@@ -76,6 +76,9 @@ def cases(tier, seed):
                 for k in range(0, n_out):
                     if shape not in ("last", "bare", "splitbare"):
                         crashes.append(["downstream-interrupt", k])
+                if shape == "filt":
+                    for k in range(0, n):
+                        crashes.append(["selector-stopiteration", k])
                 for crash in crashes:
                     for li, later in enumerate(LATERS):
                         if "drop2" in later and shape not in ("two", "adjacent"):
@@ -226,7 +229,7 @@ def ref_output(shape, flow):
     """What a complete, cache-less run yields (pure reference)."""
     vals = copy.deepcopy(flow)
     c = Counters()
-    if shape in ("seq", "source", "split", "hoistseq", "tmpl"):
+    if shape in ("seq", "source", "split", "hoistseq", "tmpl", "filt"):
         out = [Down(c)(Up(c)(v)) for v in vals]
     elif shape == "split2":
         # only the branch holding the Cache; the other branch's outputs (current flow)
@@ -262,7 +265,7 @@ class Pipeline(object):
     """One instrumented run of the shape. Fresh lena objects each time."""
 
     def __init__(self, shape, d, flow, recompute=False, fault_at=None, down_raise_at=None,
-                 hoist=None, fault_exc=InjectedFault):
+                 hoist=None, fault_exc=InjectedFault, sel_stop_at=None):
         import lena.core
         import lena.flow
         self.c = Counters()
@@ -291,6 +294,20 @@ class Pipeline(object):
         self.hoisted_type = None
         if shape == "seq":
             seq = lena.core.Sequence(Up(c), C(f1, recompute=recompute), down)
+            self.start = lambda: _D(seq).run(probe)
+            self._seq = seq
+        elif shape == "filt":
+            # a Filter upstream of the Cache; its selector (user code) may fail with
+            # StopIteration for one value: next() on an exhausted iterator of flags
+            calls = [0]
+
+            def selector(v):
+                calls[0] += 1
+                if sel_stop_at is not None and calls[0] == sel_stop_at + 1:
+                    raise StopIteration("no flag for value no. %d" % sel_stop_at)
+                return True
+            seq = lena.core.Sequence(lena.flow.Filter(selector), Up(c),
+                                     C(f1, recompute=recompute), down)
             self.start = lambda: _D(seq).run(probe)
             self._seq = seq
         elif shape == "tmpl":
@@ -381,6 +398,10 @@ class Pipeline(object):
                     got.append(gen.freeze(next(it)))
         except (InjectedFault, InjectedInterrupt) as e:
             exc = e
+        except (RuntimeError, StopIteration) as e:
+            if "StopIteration" not in repr(e) and "no flag for value" not in repr(e):
+                raise
+            exc = e         # the selector's StopIteration (as Python re-raises it in a generator)
         finally:
             # the consumer stops: drop / close the generator chain
             if it is not None and hasattr(it, "close"):
@@ -453,6 +474,12 @@ def _run_case(r, obs, d):
             if shape == "split2":
                 want += n       # the other branch's n outputs come first
             got, exc = p.run(take=want)
+        elif kind.startswith("selector"):
+            p = Pipeline(shape, d, flow0, sel_stop_at=k)
+            got, exc = p.run()
+            obs.check(exc is not None, "user-exception-ends-the-flow-silently:filter-selector",
+                      "the selector of a Filter upstream of the Cache raised StopIteration for "
+                      "value no. %d of %d; the run ended normally with %r" % (k, n, got))
         elif kind.startswith("upstream"):
             p = Pipeline(shape, d, flow0, fault_at=k,
                          fault_exc=InjectedInterrupt if kind.endswith("interrupt")
@@ -466,7 +493,7 @@ def _run_case(r, obs, d):
         obs.count("pulls_observed", p.pulls())
         obs.check(got == full0[:len(got)], "interrupted-first-run-wrong-prefix:" + shape,
                   "interrupted first run (%r) yielded %r, not a prefix of %r" % (crash, got, full0))
-        if kind != "consumer":
+        if kind != "consumer" and not kind.startswith("selector"):
             obs.check(isinstance(exc, (InjectedFault, InjectedInterrupt)),
                       "injected-fault-swallowed:" + shape,
                       "the injected %s fault did not propagate (got %r, exc %r)" % (kind, got, exc))
@@ -600,3 +627,5 @@ RULE += (' Faults are raised both as Exception and as KeyboardInterrupt; flows w
 RULE += (' Shapes also include the Cache alone (alter_sequence of a single element) and the Cache '
          'given bare as a branch of a Split.')
 RULE += (' A further shape names the cache file by a template formatted from the static context.')
+RULE += (' A further shape has a Filter upstream of the Cache whose selector raises StopIteration for '
+         'one value (a crash point like the others); recompute is also passed positionally.')
